@@ -32,7 +32,7 @@ for d in sorted(glob.glob("/verif/seeded/*/")):
             if verdict != "CAUGHT":
                 missed.append((sid, cid))
     finally:
-        subprocess.run(["git","-C","/repo","checkout","--","."],check=True)
+        subprocess.run(["git","-C","/repo","checkout","--","."],check=True); subprocess.run(["git","-C","/repo","clean","-fdq"],check=True)
     m["current"] = cur
     json.dump(m, open(mp, "w"), indent=1)
 subprocess.run("cd /verif && git checkout -- evidence 2>/dev/null; true", shell=True)
